@@ -113,6 +113,10 @@ class World:
         from vf.lib import graphmodel as gm
         return gm.ancestry(self.parents, rev)
 
+    def lefthand(self, rev):
+        from vf.lib import graphmodel as gm
+        return gm.lefthand(self.parents, rev)
+
 
 def run(case, env):
     from breezy import errors
@@ -126,6 +130,7 @@ def run(case, env):
                        params.new_revid.decode()))
     Branch.hooks.install_named_hook("post_change_branch_tip", hook, "vf-c23")
     labels = set()
+    deferred = []
     try:
         for step in case["steps"]:
             op = step["op"]
@@ -185,22 +190,31 @@ def run(case, env):
                 tree_before = w.tree_state(name)
                 in_sync = (not w.bound[name]) or \
                     w.tips[name] == w.tips["master"]
+                # (a tree left behind its own branch by update -r or by a
+                # branch-level pull is out of date whatever the master does)
+                stale = tree_before["parents"][0] != w.tips[name]
                 try:
                     w.wt(name).commit("c", rev_id=bz.enc(rid), timestamp=bz.T0,
                                       timezone=0, committer=bz.COMMITTER)
                     accepted = True
                 except (errors.BoundBranchOutOfDate,
-                        errors.CommitToDoubleBoundBranch) as e:
+                        errors.CommitToDoubleBoundBranch,
+                        errors.OutOfDateTree) as e:
                     accepted = False
                     refusal = type(e).__name__
                 if w.bound[name] and w.double:
                     check(not accepted,
                           "C23/commit-to-double-bound-accepted", ctx)
-                elif in_sync:
-                    check(accepted, "C23/in-sync-commit-refused", ctx)
-                else:
+                elif not in_sync:
                     check(not accepted,
                           "C23/commit-accepted-although-master-moved", ctx)
+                elif stale:
+                    check(not accepted,
+                          "C23/commit-from-out-of-date-tree-accepted",
+                          [ctx, tree_before["parents"]])
+                else:
+                    check(accepted, "C23/in-sync-commit-refused",
+                          [ctx, None if accepted else refusal])
                 if accepted:
                     w.parents[rid] = tree_before["parents"]
                     w.tips[name] = rid
@@ -219,21 +233,37 @@ def run(case, env):
                     w.wt(name).revert(backups=False)
             elif op == "commit-local":
                 w._write(name, "f" + name, "l%s\n" % rid)
+                tree_before = w.tree_state(name)
+                stale = tree_before["parents"][0] != w.tips[name]
                 try:
                     w.wt(name).commit("l", rev_id=bz.enc(rid), local=True,
                                       timestamp=bz.T0, timezone=0,
                                       committer=bz.COMMITTER)
                     check(w.bound[name], "C23/local-commit-on-unbound-accepted",
                           ctx)
+                    check(not stale,
+                          "C23/commit-from-out-of-date-tree-accepted",
+                          [ctx, tree_before["parents"], "local"])
                     w.parents[rid] = [w.tips[name]]
                     w.tips[name] = rid
                     labels.add("local-commit")
                 except errors.LocalRequiresBoundBranch:
                     check(not w.bound[name], "C23/local-commit-refused", ctx)
                     w.wt(name).revert(backups=False)
+                except errors.OutOfDateTree:
+                    check(stale and w.bound[name],
+                          "C23/up-to-date-tree-refused", [ctx, "local"])
+                    after = w.observe()
+                    check(after == before,
+                          "C23/refused-commit-changed-a-branch", ctx)
+                    check(w.tree_state(name) == tree_before,
+                          "C23/refused-commit-changed-the-tree", ctx)
+                    labels.add("refused:OutOfDateTree")
+                    w.wt(name).revert(backups=False)
             elif op in ("update", "pull"):
                 old_local = w.tips[name]
                 mtip = w.tips["master"]
+                basis_before = w.tree_state(name)["parents"][0]
                 if op == "pull":
                     # model: fast-forward, already merged, or diverged
                     if old_local in w.anc(mtip):
@@ -264,23 +294,54 @@ def run(case, env):
                         check(w.branch("master").last_revision().decode() ==
                               mtip, "C23/pull-moved-the-master", ctx)
                     ts = w.tree_state(name)
-                    check(ts["parents"][0] == want,
+                    check(ts["parents"][0] == want or
+                          (want == old_local and basis_before != old_local),
                           "C23/tree-basis-not-branch-tip-after-pull", [ctx, ts])
                 else:
-                    w.wt(name).update()
+                    pivot = w.bound[name] and old_local not in w.anc(mtip)
+                    rev = None
+                    if step.get("rev") and not pivot:
+                        # update -r: the branch still follows the master, the
+                        # tree goes to an older revision of that history
+                        lh = w.lefthand(mtip if w.bound[name] else old_local)
+                        rev = lh[max(0, len(lh) - 1 - step["rev"])]
+                    if rev is None:
+                        w.wt(name).update()
+                    else:
+                        w.wt(name).update(revision=bz.enc(rev))
                     if w.bound[name]:
                         if old_local != mtip:
                             labels.add("catch-up")
                         w.tips[name] = mtip
                     ts = w.tree_state(name)
-                    check(ts["parents"][0] == w.tips[name],
-                          "C23/tree-basis-not-branch-tip-after-update",
-                          [ctx, ts])
+                    if rev is None:
+                        check(ts["parents"][0] == w.tips[name],
+                              "C23/tree-basis-not-branch-tip-after-update",
+                              [ctx, ts])
+                    else:
+                        check(ts["parents"][0] == rev,
+                              "C23/tree-basis-not-the-requested-revision-"
+                              "after-update", [ctx, rev, ts])
+                        if rev != w.tips[name]:
+                            labels.add("update-to-older-revision")
                     # local-only commits survive as pending merges
                     if w.bound[name] and old_local not in w.anc(mtip):
-                        check(old_local in ts["parents"][1:],
-                              "C23/local-commit-lost-by-update", [ctx, ts])
-                        labels.add("local-commit-merged-back")
+                        lost = old_local not in ts["parents"][1:]
+                        if lost and basis_before == mtip != old_local:
+                            # open finding (reported at the end of the case so
+                            # that the search goes on behind it): the tree was
+                            # behind its own branch and already at the
+                            # master's tip - the local commits are merged into
+                            # the files but not recorded as a pending merge
+                            deferred.append((
+                                "C23/update-forgets-local-commits-when-the-"
+                                "stale-tree-is-already-at-the-master-tip",
+                                [ctx, basis_before, ts]))
+                        else:
+                            check(not lost, "C23/local-commit-lost-by-update",
+                                  [ctx, basis_before, ts])
+                        labels.add("local-commit-merged-back" + (
+                            "-stale-tree" if basis_before != old_local else ""))
                         # commit the merge so that the program can go on
                         mid = w.new_id()
                         if w.double:
@@ -311,7 +372,13 @@ def run(case, env):
                 else:
                     want = None
                 try:
-                    w.wt(name).pull(w.branch("other"), stop_revision=bz.enc(stop))
+                    if step.get("via") == "branch":
+                        # the branch alone: the tree is left where it was
+                        w.branch(name).pull(w.branch("other"),
+                                            stop_revision=bz.enc(stop))
+                    else:
+                        w.wt(name).pull(w.branch("other"),
+                                        stop_revision=bz.enc(stop))
                     refused = False
                 except errors.DivergedBranches:
                     refused = True
@@ -336,7 +403,8 @@ def run(case, env):
                     w.tips[name] = stop
                     if w.bound[name]:
                         w.tips["master"] = stop
-                    labels.add("pull-other-with-stop")
+                    labels.add("pull-other-with-stop" + (
+                        "-branch-only" if step.get("via") == "branch" else ""))
                 got = w.observe()
                 check(got[name]["tip"] == w.tips[name] and
                       got["master"]["tip"] == w.tips["master"],
@@ -362,11 +430,16 @@ def run(case, env):
                       [ctx, n, got[n]["tip"], w.tips[n]])
                 check(w.tips[n] in got[n]["revs"],
                       "C23/tip-revision-missing-from-repository", [ctx, n])
+                check(got[n]["revno"] == len(w.lefthand(w.tips[n])),
+                      "C23/revno-is-not-the-length-of-the-left-hand-history",
+                      [ctx, n, got[n]["revno"], w.lefthand(w.tips[n])])
                 for r in before[n]["revs"]:
                     check(r in got[n]["revs"], "C23/revision-disappeared",
                           [ctx, n, r])
     finally:
         Branch.hooks.uninstall_named_hook("post_change_branch_tip", "vf-c23")
+    if deferred:
+        check(False, *deferred[0])
     if not labels:
         return trivial()
     return ok("+".join(sorted(labels)))
@@ -381,7 +454,10 @@ def cases(draw, max_steps=10):
     steps = draw(st.lists(
         st.fixed_dictionaries({"op": st.sampled_from(ops),
                                "co": st.sampled_from([0, 1, 2]),
-                               "stop": st.sampled_from([0, 1, 2])}),
+                               "stop": st.sampled_from([0, 1, 2]),
+                               "rev": st.sampled_from([0, 0, 0, 1, 2]),
+                               "via": st.sampled_from(["tree", "tree",
+                                                       "branch"])}),
         min_size=3, max_size=max_steps))
     # a pull from the independent branch only fast-forwards while nothing else
     # was committed: put one first, often
@@ -389,6 +465,24 @@ def cases(draw, max_steps=10):
         steps.insert(0, {"op": "pull-other",
                          "co": draw(st.sampled_from([0, 1, 2])),
                          "stop": draw(st.sampled_from([0, 1]))})
+    elif draw(st.sampled_from([True, False, False])):
+        # "pathologically, all three may be different" (WorkingTree.update):
+        # a checkout whose branch got revisions of its own while unbound and
+        # whose tree was left behind (branch-level pull), bound again and
+        # updated - often after the master moved as well
+        co = draw(st.sampled_from([0, 1, 2]))
+        pre = [{"op": "unbind", "co": co},
+               {"op": "pull-other", "co": co, "via": "branch",
+                "stop": draw(st.sampled_from([0, 1, 2]))}]
+        if draw(st.booleans()):
+            pre.append({"op": "commit-master", "co": 0, "stop": 0})
+        # (then update - or commit: the tree may well sit on the master's
+        # tip while the branch does not)
+        pre += [{"op": "bind", "co": co},
+                draw(st.sampled_from([{"op": "update", "co": co, "rev": 0},
+                                      {"op": "update", "co": co, "rev": 0},
+                                      {"op": "commit-co", "co": co}]))]
+        steps[0:0] = pre
     return {"checkouts": n_co, "steps": steps,
             "double": draw(st.sampled_from([False] * 9 + [True]))}
 
